@@ -32,14 +32,38 @@ type c16World struct {
 
 // c16Buf is a peer's write buffer (the agent may write from several goroutines).
 type c16Buf struct {
-	mu sync.Mutex
-	b  bytes.Buffer
+	mu      sync.Mutex
+	b       bytes.Buffer
+	gate    chan error // when set, the next Write stalls until the script releases it (nil = proceed, error = write fails)
+	waiting bool       // a Write is stalled at the gate
 }
 
 func (b *c16Buf) Write(p []byte) (int, error) {
 	b.mu.Lock()
+	gate := b.gate
+	if gate != nil {
+		b.gate = nil
+		b.waiting = true
+	}
+	b.mu.Unlock()
+	if gate != nil {
+		err := <-gate
+		b.mu.Lock()
+		b.waiting = false
+		b.mu.Unlock()
+		if err != nil {
+			return 0, err
+		}
+	}
+	b.mu.Lock()
 	defer b.mu.Unlock()
 	return b.b.Write(p)
+}
+
+func (b *c16Buf) isWaiting() bool {
+	b.mu.Lock()
+	defer b.mu.Unlock()
+	return b.waiting
 }
 
 func (b *c16Buf) Len() int {
@@ -105,6 +129,12 @@ func (w *c16World) connect(n int, dialer bool) {
 	b := &c16Buf{}
 	w.bufs[n] = b
 	w.conns[n] = peer.C16InjectPeer(agent.C16PeerManager(w.a), w.self, c16ID(n), dialer, b)
+}
+
+// forgetPeers drops the harness-side handles after the agent itself closed every connection (sleep).
+func (w *c16World) forgetPeers() {
+	w.bufs = map[int]*c16Buf{}
+	w.conns = map[int]*peer.Connection{}
 }
 
 // disconnect mirrors peer.Manager.handleDisconnect: remove from the peer table, then the callback.
